@@ -33,6 +33,9 @@ sm("C15", "TransferFrame checked by TLC over a two-handle state machine (source 
 sm("C17", "Lifecycle (zero / live / freed) in the state machine: Inert checked by TLC on every transition from the dead state, Free and Reset semantics; every exported method (reflection) called on zero and freed Stacks and Conditions with plain and awkward arguments, each event validated by Frame.tla's InertRule (no panic, no resurrection except Marshal/Init, zero results except the documented sentinels).", frame=True)
 sm("C18", "OptIndependence and the FIFO latch checked by TLC; exhaustive sequences of {set, clear, toggle} x 8 options to depth 3 (quick) / 4 (thorough) replayed with raw option bits (verif hook) and getters compared; ID, category, delimiter (LIST only), symbol (non-LIST only), encapsulation pairs (duplicate characters refused) in a second instance; random mixed sequences validated as traces.")
 
+sm("C06", "Condition state machine (spec/CondCore.tla, CondMC.tla): TLC checks on every enabled transition that accepted arguments are stored and rejected ones (nil / empty-text / empty-context operators, nil and empty-string expressions, Stack expressions under no-nesting, any expression while Err() is set) leave keyword / operator / expression unchanged, that Valid() is nil exactly under the stated conditions and that String() is empty iff Valid() fails; every transition, all paths to depth 2-3 from Cond(...) and Init(), and random walks are replayed on real Conditions with Keyword / Operator / Expression / Valid / the exact String() text compared; random histories are validated by CondTrace.tla.")
+DESC["C06"]["technique"] = DESC["C06"]["technique"].replace("spec/Stackage.tla", "spec/CondMC.tla (CondCore.tla)").replace("StackageTrace.tla", "CondTrace.tla")
+
 def main():
     commits = subprocess.run(["git", "-C", "/repo", "log", "--format=%h %s", "--grep=^verif:"],
                              stdout=subprocess.PIPE, text=True).stdout.strip().splitlines()
